@@ -364,7 +364,7 @@ func init() {
 	}
 	register(&Prop{
 		ID:   "C11",
-		Rule: "token strings over {prefix, suffix, separator, text chars}: exhaustive in length-lex order (all strings up to length 4 quick / 5 thorough over {PRE,SUF,SEP,a,b}) for two fixed tables (one acyclic with a nested reference, one with a two-key cycle and a key containing the separator), then random templates from the grammar (nesting <= 4, repetition, unknown keys, defaults containing placeholders, unterminated tails, stray suffixes/separators) with random tables over <= 4 keys whose values are templates, single characters or empty; every case under one of 5 non-overlapping delimiter triples (incl. multi-byte, multi-character). Observable: result string (re-tokenised) or 'circular reference' panic; Go-side: independent recursive-descent reference, 30 s divergence timeout. Non-trivial: template nests or repeats a placeholder. Distinct by (triple, table, input). Every second default-triple resolver is built without naming the delimiters; one long-lived resolver per triple (lookup function reading the current table) must answer like the fresh one, also after earlier cycle panics.",
+		Rule: "token strings over {prefix, suffix, separator, text chars}: exhaustive in length-lex order (all strings up to length 4 quick / 5 thorough over {PRE,SUF,SEP,a,b}) for two fixed tables (one acyclic with a nested reference, one with a two-key cycle and a key containing the separator), then random templates from the grammar (nesting <= 4, repetition, unknown keys, defaults containing placeholders, unterminated tails, stray suffixes/separators) with random tables over <= 4 keys whose values are templates, single characters or empty; every case under one of 5 non-overlapping delimiter triples (incl. multi-byte, multi-character). Observable: result string (re-tokenised) or 'circular reference' panic; Go-side: independent recursive-descent reference, 30 s divergence timeout. Non-trivial: template nests or repeats a placeholder. Distinct by (triple, table, input). Every second default-triple resolver is built without naming the delimiters; one long-lived resolver per triple (lookup function reading the current table) must answer like the fresh one, also after earlier cycle panics. Every 200th case adds fixed probes: unterminated placeholders ending in the first byte of a longer delimiter, a chain of 40 values, 34 placeholders nested in keys.",
 		Corpus: func() []Case {
 			t := c11Table{keys: []rtoks{a}, vals: []rtoks{{5}}}
 			return []Case{
